@@ -14,7 +14,7 @@ import (
 func init() {
 	register("C14", &ruleSet{
 		run:    runC14,
-		floors: map[string]int{"O1": 4, "O2": 4, "O3": 4, "O4": 4, "O5": 4, "O6": 10},
+		floors: map[string]int{"O1": 4, "O2": 4, "O3": 4, "O4": 4, "O5": 4, "O6": 10, "O7": 1},
 		explain: "Decides, on every SSA path of the four gRPC wrappers (unary server, unary client, stream RecvMsg, stream SendMsg): (O1) the wrapped call " +
 			"happens only after Acquire succeeded on a limiter taken from the config; (O2) the limiter given to Acquire and to the limit-exceeded classifier is the " +
 			"same config field, sibling stream wrappers use disjoint limiter/classifier fields, and each field is the one the exported option named for that " +
@@ -342,6 +342,95 @@ func runC14(p *Prog, l *Ledger) {
 		}
 		l.Check(okDom, "O6", key, at, fmt.Sprintf("%d initialiser(s) of the config (defaults) dominate the loop applying the user options to the same config", len(inits)),
 			"user options can be overwritten by defaults (defaults not applied strictly before the option loop)")
+	}
+	// ---------------- O7: the handler is given this interceptor's wrapper
+	l.Rule("O7", "the stream handler receives a wrapper made for this call by this interceptor: on every path the stream argument of handler(srv, stream) is a freshly allocated wrapper of the type whose RecvMsg / SendMsg acquire, carrying this interceptor's configuration (a wrapper reused from an outer interceptor gates with the outer configuration only)")
+	{
+		wrapT := map[*types.Named]bool{}
+		for _, w := range wrappers {
+			if w.Dir != "" && w.Fn.Signature.Recv() != nil {
+				if nt := derefNamed(w.Fn.Signature.Recv().Type()); nt != nil {
+					wrapT[nt] = true
+				}
+			}
+		}
+		n7 := 0
+		for _, f := range p.Funcs {
+			if !p.InPkg(f, "grpc") {
+				continue
+			}
+			allInstrs(f, func(ins ssa.Instruction) {
+				call, ok := ins.(*ssa.Call)
+				if !ok || call.Call.IsInvoke() || len(call.Call.Args) != 2 {
+					return
+				}
+				nt, ok := call.Call.Value.Type().(*types.Named)
+				if !ok || nt.Obj().Name() != "StreamHandler" {
+					return
+				}
+				n7++
+				var bad []string
+				seen := map[ssa.Value]bool{}
+				var fresh func(v ssa.Value, d int) bool
+				fresh = func(v ssa.Value, d int) bool {
+					v = strip(v, false)
+					if d > 8 || seen[v] {
+						return true
+					}
+					seen[v] = true
+					switch x := v.(type) {
+					case *ssa.MakeInterface:
+						return fresh(x.X, d+1)
+					case *ssa.Phi:
+						for _, e := range x.Edges {
+							if !fresh(e, d+1) {
+								return false
+							}
+						}
+						return true
+					case *ssa.Alloc:
+						at := derefNamed(x.Type())
+						if at == nil || !wrapT[at] {
+							bad = append(bad, "the stream handed to the handler is a "+x.Type().String()+", not the limiting wrapper")
+							return false
+						}
+						// its configuration is the interceptor's own
+						okCfg := false
+						if refs := x.Referrers(); refs != nil {
+							for _, r := range *refs {
+								fa, isFA := r.(*ssa.FieldAddr)
+								if !isFA {
+									continue
+								}
+								if fr2 := fa.Referrers(); fr2 != nil {
+									for _, u := range *fr2 {
+										if st, isS := u.(*ssa.Store); isS && st.Addr == ssa.Value(fa) {
+											switch AccessPath(st.Val).Root.(type) {
+											case *ssa.FreeVar, *ssa.Alloc, *ssa.Parameter:
+												if d := derefNamed(st.Val.Type()); d != nil && strings.Contains(strings.ToLower(d.Obj().Name()), "config") {
+													okCfg = true
+												}
+											}
+										}
+									}
+								}
+							}
+						}
+						if !okCfg {
+							bad = append(bad, "the wrapper does not carry the configuration the interceptor was built with")
+						}
+						return okCfg
+					}
+					bad = append(bad, "the stream handed to the handler is not a wrapper allocated for this call: "+valueString(v))
+					return false
+				}
+				ok2 := fresh(call.Call.Args[1], 0)
+				l.Check(ok2 && len(bad) == 0, "O7", p.Key(f)+"/handler-stream", p.At(ins), "handler(srv, &wrapper{..., cfg: cfg}) with a wrapper allocated for this call", "stream operations can run without this interceptor's limiters being asked", bad...)
+			})
+		}
+		if n7 == 0 {
+			l.Infra("no call of a grpc.StreamHandler found in package grpc")
+		}
 	}
 	seenField := map[string]bool{}
 	for _, w := range wrappers {
